@@ -655,3 +655,14 @@ UNITS["DNode.findMemberImpl"] = dict(
            ("sv-ctor2", r"findMemberImpl\(StringView\(key, len\)\)", "DN_findMemberSV(self, key, len)")],
     autos={"it": "MemberIterator", "e": "MemberIterator", "name_sv": "StringView"},
     must_fire=["this-begin", "this-end", "name-sv", "getmap"])
+
+# ------------------------------------------------------------------ Xmemcpy<16|32> (avx2/base.h, sse/base.h) — C15 (bounded)
+XM_RULES = [("copy32", r"simd256<uint8_t> s\(src\);\s*s\.store\(dst\);", "XM_COPY32(dst, src);"),
+            ("copy16", r"simd128<uint8_t> s\(src\);\s*s\.store\(dst\);", "XM_COPY16(dst, src);")]
+UNITS["avx2.Xmemcpy_32"] = dict(file=A + "avx2/base.h", anchor=r"sonic_force_inline void Xmemcpy<32>\(void\* dst_,", cname="Xmemcpy_32", rtype="void", nloops=2,
+                                rules=XM_RULES, must_fire=["copy32"])
+UNITS["avx2.Xmemcpy_16"] = dict(file=A + "avx2/base.h", anchor=r"sonic_force_inline void Xmemcpy<16>\(void\* dst_,", cname="Xmemcpy_16", rtype="void", nloops=2,
+                                rules=XM_RULES, must_fire=["copy32", "copy16"])
+UNITS["sse.Xmemcpy_16"] = dict(file=A + "sse/base.h", anchor=r"sonic_force_inline void Xmemcpy<16>\(void\* dst_,", cname="Xmemcpy_16", rtype="void", nloops=1)
+UNITS["sse.Xmemcpy_32"] = dict(file=A + "sse/base.h", anchor=r"sonic_force_inline void Xmemcpy<32>\(void\* dst_,", cname="Xmemcpy_32", rtype="void",
+                               rules=[("inst16", r"Xmemcpy<16>\(", "Xmemcpy_16(")], must_fire=["inst16"])
